@@ -58,6 +58,43 @@ func BulkOps() []BulkOp {
 	}
 }
 
+// BulkWindowOps: UpdateFunc and Delete over the full grid sort x skip x limit (each set or unset), so that every
+// combination of bounded / unbounded / sorted / unsorted selection goes through the bulk-write path.
+func BulkWindowOps() []BulkOp {
+	out := []BulkOp{}
+	sorts := map[string][]m.SortOpt{"nosort": nil, "sort+y": {{Field: "y", Dir: 1}}, "sort-x": {{Field: "x", Dir: -1}}, "sort+g-y": {{Field: "g", Dir: 1}, {Field: "y", Dir: -1}}}
+	type win struct {
+		name string
+		set  bool
+		v    int
+	}
+	skips := []win{{"", false, 0}, {"skip0", true, 0}, {"skip3", true, 3}, {"skip-1", true, -1}}
+	limits := []win{{"", false, 0}, {"limit-1", true, -1}, {"limit0", true, 0}, {"limit4", true, 4}}
+	for _, sn := range []string{"nosort", "sort+y", "sort-x", "sort+g-y"} {
+		for _, sk := range skips {
+			for _, li := range limits {
+				for _, crit := range []*m.Crit{nil, m.Leaf("gte", "x", int64(2))} {
+					q := &m.Q{Coll: "a", Crit: crit, Sort: sorts[sn], SkipSet: sk.set, Skip: sk.v, LimitSet: li.set, Limit: li.v}
+					cn := "all"
+					if crit != nil {
+						cn = "x>=2"
+					}
+					name := fmt.Sprintf("window-%s-%s-%s-%s", cn, sn, sk.name, li.name)
+					uq, dq := *q, *q
+					out = append(out,
+						BulkOp{Name: "updatefunc-" + name, Op: func(int) m.Op {
+							return m.Op{K: "updateFunc", Q: &uq, Upd: &m.Updater{Set: map[string]interface{}{"w": int64(1), "x": int64(33)}, Style: "copy"}}
+						}},
+						BulkOp{Name: "delete-" + name, Op: func(int) m.Op { return m.Op{K: "delete", Q: &dq} }},
+						BulkOp{Name: "update-" + name, Op: func(int) m.Op { return m.Op{K: "update", Q: &uq, Set: map[string]interface{}{"w": int64(2)}} }},
+					)
+				}
+			}
+		}
+	}
+	return out
+}
+
 // BulkOpsNamed returns the named subset of BulkOps.
 func BulkOpsNamed(names ...string) []BulkOp {
 	out := []BulkOp{}
